@@ -202,6 +202,12 @@ func newEnabledCheckConfigNoValidate(
 	}
 }
 
+// NewDisabledCheckConfig returns a new disabled CheckConfig, that is one for which
+// no checks are run. See the comment on CheckConfig.Disabled.
+func NewDisabledCheckConfig(fileVersion FileVersion) CheckConfig {
+	return newDisabledCheckConfig(fileVersion)
+}
+
 func newDisabledCheckConfig(fileVersion FileVersion) *checkConfig {
 	return &checkConfig{
 		fileVersion: fileVersion,
